@@ -26,7 +26,7 @@ CHECKS = {
         "engine": "simopt",
         "design_ref": "DESIGN.md section 4, C06",
         "technique": "deterministic simulation: seeded call histories (set_fixed/query/optimize) with fault injection at the solver, stdout and clock seams; fixed-set reference model + independent reduced Gauss-Newton step as oracles",
-        "text": "Seeded search over simulated runs: thousands of generated graphs x fixed-set classes x call histories, with solver faults (NaN fill as SciPy does on a singular factor, exceptions, stalls), stdout failures and clock jumps placed inside optimize() from a dry run. After every op: fixed poses unchanged in every outcome (converged, max_iter, diverged, NaN, raised), fixed flags equal the fixed-set model, and a single-step optimize equals an independently assembled dense reduced Gauss-Newton step when the reduced system is well-conditioned. Sampling, not proof.",
+        "text": "Seeded search over simulated runs: thousands of generated graphs x fixed-set classes x call histories, with solver faults (NaN fill as SciPy does on a singular factor, exceptions, stalls), stdout failures and clock jumps placed inside optimize() from a dry run. After every op: fixed poses unchanged in every outcome (converged, max_iter, diverged, NaN, raised), fixed flags equal the fixed-set model, and a single-step optimize -- and every step of a shadow clone following multi-iteration calls -- equals an independently assembled dense reduced Gauss-Newton step when the reduced system is well-conditioned. Workloads include aliased pose objects, isolated/landmark/all/none fixed sets, several components, custom n-ary and numerical-Jacobian edges, -W error for the singular-factor warning. The thorough tier adds complete fault-position sweeps (one re-execution per seam event). Sampling, not proof.",
         "note": "Trusted: NumPy/SciPy, CPython io/logging, the edges' own calc_error/calc_jacobians (C01/C02 unclaimed) for the reduced-step reference; I3 asserted only when cond(H_ff)<1e8; SE(2) angles compared modulo 2*pi.",
     },
     "C12": {
@@ -93,7 +93,7 @@ def main():
         ],
         "checks": [],
         "not_applicable": [],
-        "notes": "All checks are seeded (VERIF_SEED), run /repo's working tree in-process under gsim.World, and re-validate every violation by replaying the shrunk case in a fresh interpreter. Exit 2 = harness error (never a pass). See DESIGN.md.",
+        "notes": "All checks are seeded (VERIF_SEED), run /repo's working tree in-process under gsim.World, and re-validate every violation by replaying the shrunk case in a fresh interpreter. Tiers are count-based with a wall-clock cap (skipped runs are counted in the evidence). Thorough tiers add complete fault-position sweeps. Exit 2 = harness error (never a pass). Five genuine defects of the pinned tree were repaired by fix: commits (known_findings.json, DESIGN.md section 6); there is no known (unrepaired) finding. Sensitivity: 80 seeded mutants and 49 independently written breaking changes (seeded/), DESIGN.md section 10.",
     }
     for p in sorted(CHECKS):
         c = CHECKS[p]
